@@ -110,10 +110,43 @@ type Cfg struct {
 	// shell is attached / after it has ended and before the operator's line (see late.go)
 	LateDuring []string `json:"preopened_connections_speak_during_shell,omitempty"`
 	LateAfter  []string `json:"preopened_connections_speak_after_shell,omitempty"`
+	// Engine: which case list this configuration comes from: "case" (the original list), "upload" (request-header
+	// variants of the shell's output upload, upload.go) or "atonce" (shells that are over the moment they are complete, atonce.go)
+	Engine string `json:"engine,omitempty"`
+	// OutMethod / OutExpect: the real shell's output request is a PUT instead of a POST / carries "Expect: 100-continue":
+	// "wait" = the client holds its body back until the program says 100 Continue, "nowait" = it sends body bytes at once
+	OutMethod string `json:"shell_output_method,omitempty"`
+	OutExpect string `json:"shell_output_expect_100_continue,omitempty"`
+	// JunkExpect: refused uploads carry "Expect: 100-continue" too ("wait": their client never sends a body byte)
+	JunkExpect string `json:"refused_uploads_expect_100_continue,omitempty"`
+	// At*: the at-once shell (atonce.go): how its output body is framed, when its two halves are sent, which side makes
+	// it end at once, and how many times the same would-be shell is tried while none has become fully attached
+	AtFrame    string `json:"at_once_output_framing,omitempty"`
+	AtTiming   string `json:"at_once_timing,omitempty"`
+	AtEnd      string `json:"at_once_ended_by,omitempty"`
+	AtPauseMs  int    `json:"at_once_first_half_attached_for_ms,omitempty"`
+	AtAttempts int    `json:"at_once_max_attempts,omitempty"`
+	// PlainBuild: the program is built as shipped, without the race detector
+	PlainBuild bool `json:"program_built_without_race_detector,omitempty"`
 }
 
 func (c Cfg) sig() string {
-	return fmt.Sprintf("%s|%s|%s|%s|%s|%s|h%v|ts%v|f%v|rst%v", c.Kind, c.Order, c.Junk, c.JunkWhere, c.Traffic, c.Ending, c.Hold, c.NoTS, c.Files, c.PollRST) + map[bool]string{true: "|1cpu", false: ""}[c.OneCPU] + map[bool]string{true: "|cl", false: ""}[c.FixedLen] + "|log=" + c.Log + lateSig(c)
+	return fmt.Sprintf("%s|%s|%s|%s|%s|%s|h%v|ts%v|f%v|rst%v", c.Kind, c.Order, c.Junk, c.JunkWhere, c.Traffic, c.Ending, c.Hold, c.NoTS, c.Files, c.PollRST) + map[bool]string{true: "|1cpu", false: ""}[c.OneCPU] + map[bool]string{true: "|cl", false: ""}[c.FixedLen] + "|log=" + c.Log + lateSig(c) + newSig(c)
+}
+
+// newSig: the dimensions of the later engines (empty for the original list, whose signatures stay what they were).
+func newSig(c Cfg) string {
+	s := ""
+	if c.Engine != "" && c.Engine != "case" {
+		s += "|engine=" + c.Engine
+	}
+	if c.OutMethod != "" || c.OutExpect != "" || c.JunkExpect != "" {
+		s += "|out=" + c.OutMethod + "/expect:" + c.OutExpect + "/junk-expect:" + c.JunkExpect
+	}
+	if c.AtFrame != "" {
+		s += "|atonce=" + c.AtFrame + "/" + c.AtTiming + "/" + c.AtEnd
+	}
+	return s
 }
 
 // makeCfg derives the configuration of case i.  C12_FORCE="order=o-i,junk=wrong-id,hold=true,ending=out-end,traffic=idle,where=pre"
@@ -508,6 +541,7 @@ type result struct {
 	tl       *timeline
 	term     string
 	full     bool // went through all phases
+	held     *heldBound
 }
 
 func (res *result) count(k string, n int64) { res.counts[k] += n }
@@ -541,7 +575,27 @@ func (res *result) witness() map[string]any {
 
 // ---- one case -----------------------------------------------------------------
 
+// noticeSrc is where the program's notices are read: the terminal of the real
+// binary (*ptyx.Proc).
+type noticeSrc interface {
+	WaitFor(re *regexp.Regexp, from int, d time.Duration) ([]int, bool)
+	CleanLen() int
+	Clean() string
+	TimeOfClean(off int) time.Time
+}
+
+// heldBound: a progress bound fired, and instead of running the case again
+// the SAME process is kept and watched further once the other cases are done
+// (a re-run would roll the program's scheduling dice again).
+type heldBound struct {
+	Key, What string
+	// confirm watches for another d; true: what was waited for has still not happened
+	confirm func(d time.Duration) (bool, string)
+	release func()
+}
+
 type env struct {
+	src   noticeSrc
 	r     *mon.Run
 	res   *result
 	cfg   Cfg
@@ -578,16 +632,23 @@ func (e *env) keep(c interface{ Close() }) { e.conns = append(e.conns, c) }
 
 // notice waits for a terminal notice at/after from.
 func (e *env) notice(re string, from int, d time.Duration) (int, time.Time, bool) {
-	loc, ok := e.s.Wait(re, from, d)
+	loc, ok := e.src.WaitFor(regexp.MustCompile(re), from, d)
 	if !ok {
 		return 0, time.Time{}, false
 	}
-	return loc[1], e.s.P.TimeOfClean(loc[0]), true
+	return loc[1], e.src.TimeOfClean(loc[0]), true
 }
 
 func runCase(r *mon.Run, bin string, i int, alone bool) *result {
 	rng := r.Rng("case", i)
 	cfg := makeCfg(rng, r.Rng("late", i), i, r.Rng("rotation", 0).IntN(20))
+	return runCfg(r, bin, cfg, rng, r.Rng("late-run", i), alone)
+}
+
+// runCfg runs one configuration of any engine; rng is the case's own stream
+// (already used to derive cfg), lrng the one of its late speakers.
+func runCfg(r *mon.Run, bin string, cfg Cfg, rng, lrng *rand.Rand, alone bool) *result {
+	i := cfg.Index
 	tl := &timeline{t0: time.Now()}
 	res := &result{cfg: cfg, counts: map[string]int64{}, tl: tl}
 	mult := time.Duration(1)
@@ -595,7 +656,7 @@ func runCase(r *mon.Run, bin string, i int, alone bool) *result {
 	if alone {
 		mult, suffix = 2, "-alone"
 	}
-	home := filepath.Join(r.Work, fmt.Sprintf("case-%d%s", i, suffix))
+	home := filepath.Join(r.Work, fmt.Sprintf("case-%s%d%s", cfg.Engine, i, suffix))
 	os.RemoveAll(home)
 	os.MkdirAll(home, 0o755)
 	args := []string{"-one-shell", "-listen-address", "127.0.0.1:0", "-tls-certificate-cache", ""}
@@ -651,8 +712,8 @@ func runCase(r *mon.Run, bin string, i int, alone bool) *result {
 	}
 	tl.t0 = s.P.Started
 	tl.add("HARNESS 'Listening on %s' seen; args %v", s.Addr, args)
-	e := &env{r: r, res: res, cfg: cfg, rng: rng, s: s, tl: tl, mult: mult, addr: s.Addr, fdir: fdir, lrng: r.Rng("late-run", i)}
-	defer func() {
+	e := &env{src: s.P, r: r, res: res, cfg: cfg, rng: rng, s: s, tl: tl, mult: mult, addr: s.Addr, fdir: fdir, lrng: lrng}
+	cleanup := func() {
 		if e.p != nil {
 			e.p.halt()
 		}
@@ -662,6 +723,13 @@ func runCase(r *mon.Run, bin string, i int, alone bool) *result {
 		res.term = s.P.Clean()
 		s.Close()
 		os.RemoveAll(home)
+	}
+	defer func() {
+		if res.held != nil {
+			res.held.release = cleanup // the process lives on until the driver has watched it alone
+			return
+		}
+		cleanup()
 	}()
 
 	// The certificate identifies this program's listener later on.
@@ -673,12 +741,28 @@ func runCase(r *mon.Run, bin string, i int, alone bool) *result {
 	e.p = startPoller(s.Addr, pin, cfg.PollRST, tl)
 	e.p.waitAttempts(3, 5*time.Second)
 
-	if cfg.Kind == "never" {
+	switch cfg.Kind {
+	case "never":
 		e.never()
-	} else {
+	case "atonce":
+		e.atOnce()
+	default:
 		e.fullShell()
 	}
+	if res.held != nil {
+		e.noticesToTimeline()
+		return res
+	}
 
+	e.pollerStats()
+	res.term = s.P.Clean()
+	e.noticesToTimeline()
+	return res
+}
+
+// pollerStats halts the poller and books what it saw.
+func (e *env) pollerStats() {
+	res, tl := e.res, e.tl
 	e.p.halt()
 	e.p.mu.Lock()
 	res.count("poller_connects", int64(e.p.n))
@@ -703,17 +787,14 @@ func runCase(r *mon.Run, bin string, i int, alone bool) *result {
 		res.inconclusive("poller saw %d results that are neither success nor ECONNREFUSED outside the closing window: %v", e.p.nOther, odd)
 	}
 	e.p.mu.Unlock()
-	res.term = s.P.Clean()
-	e.noticesToTimeline()
-	return res
 }
 
 var noticeRes = regexp.MustCompile(`Shell is ready to go!|Closing listener, because -one-shell|Shell is gone :\(|(?:Input|Output) connected: ID "[^"]*"|Rejected [^\r\n]{0,80}|(?:Input|Output) (?:connection|side of bidirectional connection) closed[^\r\n]{0,60}|Goodbye\.|Fatal error[^\r\n]{0,80}|To get a shell:`)
 
 func (e *env) noticesToTimeline() {
-	clean := e.s.P.Clean()
+	clean := e.src.Clean()
 	for _, loc := range noticeRes.FindAllStringIndex(clean, -1) {
-		e.tl.at(e.s.P.TimeOfClean(loc[0]), "TERM  %s", clean[loc[0]:loc[1]])
+		e.tl.at(e.src.TimeOfClean(loc[0]), "TERM  %s", clean[loc[0]:loc[1]])
 	}
 }
 
@@ -773,7 +854,7 @@ func (e *env) rawJunk() {
 // given id/direction is attached.  dir is the direction of the attached half.
 func (e *env) refusedAttempts(kinds []string, dir, id string) bool {
 	for _, k := range kinds {
-		mark := e.s.P.CleanLen()
+		mark := e.src.CleanLen()
 		// wrong-id: the OTHER direction with another ID; duplicate: the SAME
 		// direction with the same ID
 		target, isOut := "", false
@@ -811,7 +892,28 @@ func (e *env) refusedAttempts(kinds []string, dir, id string) bool {
 			e.nRefusedOut++
 		}
 		// clients that never hang up: every second refused upload is a fixed-length one
-		if isOut && e.cfg.Hold && e.nRefusedOut%2 == 0 {
+		if isOut && e.cfg.JunkExpect != "" {
+			// an upload that asks for permission first: "wait" = its client never sends a body byte (no 100 Continue
+			// ever comes for a refused upload), "nowait" = the first part of the body follows the header at once
+			pc, err := hk.Dial(e.addr, "")
+			if err != nil {
+				e.tl.add("JUNK  %s %s failed: %v", k, target, err)
+				return false
+			}
+			pcc := connCloser{pc}
+			e.keep(pcc)
+			framing, body := "Transfer-Encoding: chunked", "f\r\nREFUSED-OUTPUT\n\r\n"
+			if e.nRefusedOut%2 == 0 {
+				framing, body = "Content-Length: 200000", strings.Repeat("REFUSED-OUTPUT\n", 50)
+			}
+			if e.cfg.JunkExpect == "wait" {
+				body = ""
+			}
+			fmt.Fprintf(pc, "%s %s HTTP/1.1\r\nHost: fake.shell\r\n%s\r\nExpect: 100-continue\r\n\r\n%s", []string{"POST", "PUT"}[e.nRefusedOut%2], target, framing, body)
+			conn = pcc
+			e.res.count("junk_refused_uploads_with_expect_100_continue", 1)
+			e.res.count("junk_refused_uploads_with_expect_100_continue:"+e.cfg.JunkExpect, 1)
+		} else if isOut && e.cfg.Hold && e.nRefusedOut%2 == 0 {
 			// a fixed-length upload of which only a part ever arrives
 			pc, err := hk.Dial(e.addr, "")
 			if err != nil {
@@ -861,7 +963,7 @@ func (e *env) refusedAttempts(kinds []string, dir, id string) bool {
 
 // halfDies attaches one half alone and lets it die.
 func (e *env) halfDies(dir, id string, hold time.Duration, end string) bool {
-	mark := e.s.P.CleanLen()
+	mark := e.src.CleanLen()
 	var closeFn func()
 	if dir == "in" {
 		in, err := crs.OpenIn(e.addr, "/i/"+id)
@@ -934,7 +1036,7 @@ func (e *env) preJunk() bool {
 	if c.JunkWhere == "pre" && len(junkKinds(c.Junk)) > 0 {
 		// refused attempts against a throw-away input half, which then dies
 		id := "jr-" + c.ID
-		mark := e.s.P.CleanLen()
+		mark := e.src.CleanLen()
 		in, err := crs.OpenIn(e.addr, "/i/"+id)
 		if err != nil {
 			e.tl.add("JUNK  throw-away /i failed: %v", err)
@@ -1502,12 +1604,78 @@ func (e *env) bodiedRequests(refusedInTarget string) {
 // declared length of 200 000 bytes of which only the tokens (a few KB) are ever
 // sent — less than 256 KiB stay outstanding, which is the range in which
 // net/http tries to read the rest of a body before it lets go of a request.
+// The cases of the upload engine (upload.go) choose the method and add
+// "Expect: 100-continue".
 func (e *env) openRealOut(target string) (*crs.OutStream, error) {
-	if e.cfg.FixedLen {
+	c := e.cfg
+	if c.FixedLen {
 		e.res.count("shells_uploading_with_content_length", 1)
-		return crs.OpenOutLen(e.addr, target, 200000)
 	}
-	return crs.OpenOut(e.addr, target)
+	if c.OutMethod == "" && c.OutExpect == "" {
+		if c.FixedLen {
+			return crs.OpenOutLen(e.addr, target, 200000)
+		}
+		return crs.OpenOut(e.addr, target)
+	}
+	declared := int64(0)
+	if c.FixedLen {
+		declared = 200000
+	}
+	method := c.OutMethod
+	if method == "" {
+		method = "POST"
+	}
+	return e.openUpload(method, target, declared, c.OutExpect)
+}
+
+// openUpload sends the header of an upload (declared > 0: with that
+// Content-Length, else chunked) and, with expect == "wait", does what curl does
+// with -T: it holds the body back until the program has said "100 Continue"
+// (curl gives up waiting after a second and sends anyway; so does this client,
+// after the notice bound, and counts it).  expect == "nowait": the header is
+// there, the client does not care.
+func (e *env) openUpload(method, target string, declared int64, expect string) (*crs.OutStream, error) {
+	c, err := hk.Dial(e.addr, "")
+	if err != nil {
+		return nil, err
+	}
+	var b strings.Builder
+	fmt.Fprintf(&b, "%s %s HTTP/1.1\r\nHost: fake.shell\r\n", method, target)
+	if declared > 0 {
+		fmt.Fprintf(&b, "Content-Length: %d\r\n", declared)
+	} else {
+		b.WriteString("Transfer-Encoding: chunked\r\n")
+	}
+	if expect != "" {
+		b.WriteString("Expect: 100-continue\r\n")
+		e.res.count("shell_uploads_with_expect_100_continue", 1)
+		e.res.count("shell_uploads_with_expect_100_continue:"+expect, 1)
+	}
+	b.WriteString("\r\n")
+	c.SetWriteDeadline(time.Now().Add(crs.Bound))
+	if _, err := io.WriteString(c, b.String()); err != nil {
+		c.Close()
+		return nil, err
+	}
+	c.SetWriteDeadline(time.Time{})
+	e.tl.add("HARNESS upload request sent: %s %s, %s, Expect: %s", method, target, map[bool]string{true: fmt.Sprintf("Content-Length: %d", declared), false: "chunked"}[declared > 0], orDash(expect))
+	if expect == "wait" {
+		c.SetReadDeadline(time.Now().Add(boundNotice * e.mult))
+		status, err := c.R.ReadString('\n')
+		for l := status; err == nil && strings.TrimRight(l, "\r\n") != ""; {
+			l, err = c.R.ReadString('\n')
+		}
+		c.SetReadDeadline(time.Time{})
+		if err == nil && strings.HasPrefix(status, "HTTP/1.1 100") {
+			e.res.count("expect_100_continue_received", 1)
+			e.tl.add("HARNESS the program said %q; the client starts its body", strings.TrimSpace(status))
+		} else {
+			// not this property: the client sends its body anyway, as curl does
+			e.res.count("expect_100_continue_not_received", 1)
+			e.tl.add("HARNESS no 100 Continue (%q, %v); the client sends its body anyway", strings.TrimSpace(status), err)
+		}
+	}
+	return &crs.OutStream{C: c, Fixed: declared > 0}, nil
 }
 
 // checkTraffic waits for everything sent to have arrived and compares.
@@ -1661,10 +1829,25 @@ func (e *env) afterEnd(markEnd int, dropConns func()) {
 	res, c := e.res, e.cfg
 	goneEnd, tGone, ok := e.notice(`Shell is gone :\(`, markEnd, boundNotice*e.mult)
 	if !ok {
+		if os.Getenv("C12_DEBUG") == "dump" {
+			mark := e.s.P.CleanLen()
+			e.s.P.Signal(syscall.SIGQUIT)
+			e.s.P.WaitExit(10 * time.Second)
+			time.Sleep(50 * time.Millisecond)
+			fmt.Fprintf(os.Stderr, "==== goroutine dump of case %s %d (no gone notice)\n%s\n", c.Engine, c.Index, strings.ReplaceAll(e.s.P.Clean()[mark:], "\r", ""))
+		}
 		res.inconclusive("no 'Shell is gone' notice within %s after ending %s (ending a shell is not this property)", boundNotice*e.mult, c.Ending)
 		return
 	}
 	e.tl.at(tGone, "HARNESS sees the gone notice")
+	e.afterGone(goneEnd, dropConns)
+}
+
+// afterGone: the shell is known to have ended and the terminal offset goneEnd
+// lies at or after its end: no help from there on, exit after at most one
+// entered line.
+func (e *env) afterGone(goneEnd int, dropConns func()) {
+	res, c := e.res, e.cfg
 	if !c.Hold {
 		dropConns()
 	} else {
@@ -2001,40 +2184,112 @@ func (e *env) curlShell() {
 // ---- driver -------------------------------------------------------------------
 
 func merge(r *mon.Run, res *result, orderCount bool) {
+	// the later engines count under their own names: the floors of the original list mean what they meant
+	pre := ""
+	if res.cfg.Engine != "" {
+		pre = res.cfg.Engine + "_"
+	}
 	for k, v := range res.counts {
-		r.Count(k, v)
+		r.Count(pre+k, v)
 	}
 	if !orderCount {
 		return
 	}
 	c := res.cfg
-	r.Count("runs", 1)
+	r.Count(pre+"runs", 1)
 	if res.full {
-		r.Count("runs_complete", 1)
+		r.Count(pre+"runs_complete", 1)
 	}
 	if c.Kind == "never" {
 		r.Count("runs_never_completed_shell", 1)
 		return
 	}
-	r.Count("order_"+c.Order, 1)
-	r.Count("ending_"+c.Ending, 1)
-	r.Count("junk_"+c.Junk, 1)
-	r.Count("traffic_"+c.Traffic, 1)
+	r.Count(pre+"order_"+c.Order, 1)
+	r.Count(pre+"ending_"+c.Ending, 1)
+	r.Count(pre+"junk_"+c.Junk, 1)
+	r.Count(pre+"traffic_"+c.Traffic, 1)
+	if c.Engine == "upload" && res.full {
+		// the lingering-upload scenario, judged to the end (exit observed, status checked)
+		if c.Ending == "in-close" && c.Hold {
+			r.Count("upload_lingering_uploads_judged_to_the_end", 1)
+			if c.OutExpect != "" {
+				r.Count("upload_lingering_uploads_with_expect_judged_to_the_end", 1)
+				if c.FixedLen {
+					r.Count("upload_lingering_uploads_with_expect_and_content_length_judged_to_the_end", 1)
+				}
+			}
+		}
+	}
+}
+
+// buildPlain compiles the program the way it is shipped: WITHOUT the race
+// detector (crs.Build always switches it on).  The detector slows every
+// channel operation and lock several times over, which shifts the program's
+// scheduling in exactly the instants the at-once engine is about.
+func buildPlain(dir string) (string, error) {
+	out := filepath.Join(dir, "curlrevshell-plain")
+	if _, err := os.Stat(out); err == nil {
+		return out, nil
+	}
+	cmd := exec.Command("go", "build", "-tags", "verif", "-o", out, "github.com/magisterquis/curlrevshell")
+	cmd.Dir = filepath.Join(mon.VerifDir, "harness")
+	cmd.Env = append(os.Environ(), "GOFLAGS=-mod=mod", "GOPROXY=off", "GOSUMDB=off", "GOTOOLCHAIN=local")
+	if b, err := cmd.CombinedOutput(); err != nil {
+		return "", fmt.Errorf("go build (no race detector): %v\n%s", err, b)
+	}
+	return out, nil
+}
+
+// job is one case of one engine.
+type job struct {
+	engine string
+	index  int
+}
+
+func jobCfg(r *mon.Run, j job) (Cfg, *rand.Rand, *rand.Rand) {
+	rot := r.Rng("rotation", 0).IntN(20)
+	switch j.engine {
+	case "upload":
+		rng := r.Rng("upload", j.index)
+		return makeUploadCfg(rng, j.index, rot), rng, r.Rng("upload-late-run", j.index)
+	case "atonce":
+		rng := r.Rng("atonce", j.index)
+		return makeAtOnceCfg(rng, j.index, rot), rng, r.Rng("atonce-late-run", j.index)
+	}
+	rng := r.Rng("case", j.index)
+	return makeCfg(rng, r.Rng("late", j.index), j.index, rot), rng, r.Rng("late-run", j.index)
+}
+
+func runJob(r *mon.Run, bin string, j job, alone bool) *result {
+	cfg, rng, lrng := jobCfg(r, j)
+	if cfg.PlainBuild {
+		bin = filepath.Join(filepath.Dir(bin), "curlrevshell-plain")
+	}
+	return runCfg(r, bin, cfg, rng, lrng, alone)
 }
 
 func Run(r *mon.Run) {
 	r.Rule = "one case = one run of the real binary with -one-shell on a pty, with a connect(2) poller every 5 ms for its whole life; " +
-		"distinct = (kind, arrival order, junk kind and place, in-flight traffic, ending, clients holding on, flags, what pre-opened silent connections ask for during / after the shell); " +
-		"non-trivial: every case makes connections before the shell, passes >= 220 tokens/lines (curl|sh: >= 220 round trips) across the listener close and observes the exit; " +
+		"distinct = (kind, arrival order, junk kind and place, in-flight traffic, ending, clients holding on, flags, what pre-opened silent connections ask for during / after the shell; " +
+		"upload engine: method, framing and Expect header of the shell's output request; at-once engine: framing of the empty output body, timing of the two halves, which side ends the shell); " +
+		"non-trivial: every case makes connections before the shell, passes >= 220 tokens/lines (curl|sh: >= 220 round trips; upload engine: >= 80) across the listener close and observes the exit; " +
 		"every full case also opens 3-7 connections (TCP only, or TCP+TLS handshake) just before the request that completes the shell, which stay silent and send their request only later: " +
 		"two kinds (a would-be shell: /io, an /i+/o pair, a duplicate /i; and /c, a file, non-HTTP bytes or a lone /i) while the shell is attached and carrying traffic (>= 30 more tokens and lines must pass afterwards), " +
 		"and, after the shell has ended and before the operator's line, a would-be shell (/io or an /i+/o pair, sometimes both in turn, or a lone /i) followed by /c, a file or non-HTTP bytes; " +
-		"then the usual end: no callback help, exit status 0 after at most the one entered line"
+		"then the usual end: no callback help, exit status 0 after at most the one entered line. " +
+		"UPLOAD engine (upload.go): full cases (i-o / o-i) whose output request is POST|PUT x chunked|Content-Length: 200000 x Expect: 100-continue (the client waits for '100 Continue' before its first body byte | does not wait) | no Expect header; " +
+		"three in four end with the input connection going away while the upload is idle and its client stays connected and silent for ever (< 256 KiB of the declared length outstanding); a third have refused uploads with the Expect header before the shell, lingering too. " +
+		"AT-ONCE engine (atonce.go): how long the one shell lives — shells that are over the moment they are complete, with zero traffic: the output body is empty or already finished " +
+		"(Content-Length: 0 | no body framing | chunked with the terminating chunk in the same write | a declared length sent whole with the header | a real curl -T /dev/null) as the second half after the input side has been attached for 20-300 ms, " +
+		"both halves written back to back in either order, one /io request with such a body, or (output side attached for a while, body unfinished) the end of the body / an input request whose client hangs up at once, sent in the same breath as the other half; " +
+		"an attempt that ends without a ready notice is dropped and tried again (at most 8 times per process; nothing is promised about it); once a ready notice is on the terminal: " +
+		"ECONNREFUSED within the bound, never a success again, no callback help, exit status 0 after at most the one entered line"
 	r.Assumptions = []string{
 		"phase A ends when the harness STARTS the request that completes the shell (the listener may legitimately close before the ready notice reaches the terminal)",
 		"a successful connect after the close counts only if the listener presents this program's certificate (another process may be given the freed port)",
 		"output tokens are 16 bytes, one per HTTP chunk, so the broker's 2048-byte reads never split one; a tolerant second scan removes line-editor redraws",
-		"progress bounds: refusal 20 s after the ready notice, exit 30 s after the one entered line, traffic 30 s; a fired bound is re-tried alone with the bound doubled",
+		"progress bounds: refusal 20 s after the ready notice, exit 30 s after the one entered line, traffic 30 s; a fired bound is re-tried alone with the bound doubled, up to three times (the first two cases per bound; three in the thorough tier): " +
+			"a violation is a bound that fired under load AND again in a run alone with the bound doubled",
 		"clients hang up as soon as they are refused / their shell is gone (as curl does when its pipe ends); with hold=true (every tenth case by construction, one in six otherwise) they never hang up by themselves",
 		"the process is given 2 s (every fifth case 10 s) to exit by itself before exactly one empty line is entered",
 		"late requests on pre-opened connections: whether they are served, refused or find their connection already closed is promised neither way and only counted (late_*); " +
@@ -2042,43 +2297,116 @@ func Run(r *mon.Run) {
 		"a late request that becomes a further fully attached shell after the only shell has ended is used (one chunk of output) and ended by its own client (request body ends) before the operator's line; " +
 			"the operator types nothing while it is attached, and the one line is entered only after every pre-opened connection has spoken and (unless hold) hung up — " +
 			"a line entered while a further shell is attached or while a silent connection is still pending is outside the statement",
-		"floor late_later_shells_ready: the second 'shell connected' event after the listener was closed must really have been produced (the program as it stands admits a request on a connection it accepted before the close for about 5 s); " +
-			"if the program stops admitting them this floor has to go",
+		"since fix 0610514 the program closes every connection that is left once the one shell has gone, so a pre-opened connection that tries to speak afterwards finds itself closed (late_after_shell_requests_not_sent); the attempts are still made (floor late_after_shell_attempts) and whatever the program does with them is counted, never judged",
+		"upload engine: a client that waits for '100 Continue' and does not get it within the notice bound sends its body anyway (curl does after 1 s) and is counted (upload_expect_100_continue_not_received); " +
+			"the program as it stands answers an admitted upload's Expect at once (floor upload_expect_100_continue_received) — whether it does is not this property",
+		"at-once engine: 'fully attached' is what the program itself reports (the ready notice); an at-once attempt without a ready notice promises nothing and is counted (atonce_attempts_without_ready_notice, atonce_cases_never_ready); " +
+			"for the attempts whose halves race each other the yield is the program's scheduling, so only the input-first-for-a-while shape has a per-shape floor; " +
+			"the program starts winding down the moment the listener is closed, which for so short a shell is at once, and notices it had queued then may never reach the terminal: " +
+			"the END of the shell is therefore the gone notice or, failing that, every request of the shell answered to its end (handlers returned); " +
+			"and a listener seen closed with no ready notice on the terminal is counted (atonce_listener_closed_without_a_ready_notice_on_the_terminal), never judged — " +
+			"only refusals before the FIRST at-once attempt was started are violations of 'the listener stays open'; " +
+			"the 1.5 s given to an attempt whose outcome may be silence (input request whose client has hung up) only decides when the next attempt starts",
+		"at-once engine: five cases in six run the program built WITHOUT the race detector (as shipped): the detector's slow-down of every lock and channel operation moves the instants this engine is about " +
+			"(the other engines keep the race-detector build; race reports are judged as before)",
+		"at-once engine, refusal bound: when no refusal is seen 20 s after the ready notice the case is NOT run again (that would roll the program's scheduling dice again); the same process and poller are kept " +
+			"and, once all other cases are done, watched alone for another 40 s (the first two such processes; three in the thorough tier): a violation is a listener that is still open then",
+		"the later engines' pollers always close with RST (the original list draws RST or FIN): a FIN leaves a TIME_WAIT socket per connect and the many short cases would use up the machine's ephemeral ports",
 	}
 	if f := os.Getenv("C12_FORCE"); f != "" {
 		r.Extra("forced_dimensions", f)
 	}
+	n := r.N(10, 150)
+	nUp := r.N(6, 36)
+	nAt := r.N(12, 96)
+	var jobs []job
+	for i := 0; i < n; i++ {
+		jobs = append(jobs, job{"case", i})
+	}
+	// the short cases of the later engines alternate behind the original list (whose long-staying shell starts first)
+	for k := 0; k < nUp || k < nAt; k++ {
+		if k < nAt {
+			jobs = append(jobs, job{"atonce", k})
+		}
+		if k < nUp {
+			jobs = append(jobs, job{"upload", k})
+		}
+	}
+
 	if os.Getenv("C12_LIST") != "" { // debugging aid: print the case list of this seed/tier and stop
-		for i := 0; i < r.N(10, 150); i++ {
-			fmt.Fprintf(os.Stderr, "%d %s\n", i, makeCfg(r.Rng("case", i), r.Rng("late", i), i, r.Rng("rotation", 0).IntN(20)).sig())
+		for _, j := range jobs {
+			cfg, _, _ := jobCfg(r, j)
+			fmt.Fprintf(os.Stderr, "%s %d %s\n", j.engine, j.index, cfg.sig())
 		}
 		r.Inconclusive("C12_LIST: nothing was run")
 		return
 	}
+	if only := os.Getenv("C12_ENGINE"); only != "" { // debugging aid: one engine only (its floors alone cannot be met: exit 2 at best)
+		var keep []job
+		for _, j := range jobs {
+			if j.engine == only {
+				keep = append(keep, j)
+			}
+		}
+		jobs = keep
+		r.Extra("only_engine", only)
+	}
+	plainErr := make(chan error, 1)
+	go func() { _, err := buildPlain(r.Work); plainErr <- err }()
 	bin, err := crs.Build(r.Work, "")
 	if err != nil {
 		r.Inconclusive("cannot build the program: " + err.Error())
 		return
 	}
-	n := r.N(10, 150)
-	results := make([]*result, n)
-	mon.Parallel(n, 8, func(i int) {
-		if !r.Want("case", i) {
+	if err := <-plainErr; err != nil {
+		r.Inconclusive("cannot build the program without the race detector: " + err.Error())
+		return
+	}
+	results := make([]*result, len(jobs))
+	mon.Parallel(len(jobs), 10, func(x int) {
+		if !r.Want(jobs[x].engine, jobs[x].index) {
 			return
 		}
-		results[i] = runCase(r, bin, i, false)
+		results[x] = runJob(r, bin, jobs[x], false)
 		r.Eval(1)
 	})
 	var maxLat time.Duration
 	retried := map[string]int{}
+	watched := map[string]int{}
+	confirmed := map[string]bool{}
 	sampled := map[string]bool{}
-	for i, res := range results {
+	// what the lists hold by construction (floors follow the lists, not the other way round)
+	byConstr := map[string]int64{}
+	for x, res := range results {
 		if res == nil {
 			continue
 		}
+		j := jobs[x]
+		i := j.index
 		merge(r, res, true)
+		cf := res.cfg
+		switch cf.Engine {
+		case "upload":
+			if cf.OutExpect != "" {
+				byConstr["upload_expect"]++
+			}
+			if cf.OutExpect == "wait" {
+				byConstr["upload_expect_wait"]++
+			}
+			if cf.Ending == "in-close" && cf.Hold && cf.OutExpect != "" && cf.FixedLen {
+				byConstr["upload_linger_expect_fixed"]++
+			}
+			if cf.JunkExpect != "" {
+				byConstr["upload_junk_expect"]++
+			}
+		case "atonce":
+			byConstr["atonce"]++
+			if cf.Order == "i-o" && cf.AtTiming == "after-a-while" {
+				byConstr["atonce_det"]++
+			}
+		}
 		if os.Getenv("C12_DEBUG") != "" {
-			fmt.Fprintf(os.Stderr, "---- case %d %+v\n%s\n", i, res.cfg, strings.Join(res.tl.lines(), "\n"))
+			fmt.Fprintf(os.Stderr, "---- %s %d %+v\n%s\n", j.engine, i, res.cfg, strings.Join(res.tl.lines(), "\n"))
 			if os.Getenv("C12_DEBUG") == "term" {
 				fmt.Fprintf(os.Stderr, "---- terminal\n%q\n", res.term)
 			}
@@ -2088,69 +2416,145 @@ func Run(r *mon.Run) {
 			maxLat = res.closeLat
 		}
 		for _, v := range res.viol {
-			r.Violate("case", i, v.Key, v.What, res.witness())
+			r.Violate(j.engine, i, v.Key, v.What, res.witness())
 		}
 		for _, s := range res.inconc {
 			r.Inconclusive(s)
 		}
-		// a fired bound: once more, alone, bound doubled
+		// a fired bound: again, alone, bound doubled, up to three times
 		for _, f := range res.fired {
-			if retried[f.Key] >= r.N(1, 2) {
+			if confirmed[f.Key] {
+				r.Count("bound_fired_again_after_confirmation", 1)
+				r.Logf("%s %d: bound fired (%s); this bound is already a confirmed violation, not re-tried", j.engine, i, f.Key)
+				continue
+			}
+			if retried[f.Key] >= r.N(2, 3) {
 				r.Count("bound_fired_not_retried", 1)
-				r.Inconclusive(fmt.Sprintf("case %d: bound fired (%s) — not re-tried, %d case(s) with this bound were already re-tried alone", i, f.Key, r.N(1, 2)))
+				r.Inconclusive(fmt.Sprintf("%s %d: bound fired (%s) — not re-tried, %d case(s) with this bound were already re-tried alone", j.engine, i, f.Key, r.N(2, 3)))
 				continue
 			}
 			retried[f.Key]++
-			r.Logf("case %d: bound fired (%s); re-running alone", i, f.Key)
-			r.Count("retries_alone", 1)
-			again := runCase(r, bin, i, true)
 			hit := false
-			for _, f2 := range again.fired {
-				if f2.Key == f.Key {
+			for rep := 1; rep <= 3 && !hit; rep++ {
+				r.Logf("%s %d: bound fired (%s); re-running alone (%d of at most 3)", j.engine, i, f.Key, rep)
+				r.Count("retries_alone", 1)
+				again := runJob(r, bin, j, true)
+				for _, f2 := range again.fired {
+					if f2.Key == f.Key {
+						hit = true
+						confirmed[f.Key] = true
+						r.Violate(j.engine, i, f.Key, f2.What+fmt.Sprintf(" [fired twice: under load and alone (run %d alone) with the bound doubled]", rep), again.witness())
+					}
+				}
+				for _, v := range again.viol {
 					hit = true
-					r.Violate("case", i, f.Key, f2.What+" [fired twice: under load and alone with the bound doubled]", again.witness())
+					r.Violate(j.engine, i, v.Key, v.What+" [seen in the re-run alone]", again.witness())
 				}
 			}
-			for _, v := range again.viol {
-				r.Violate("case", i, v.Key, v.What+" [seen in the re-run alone]", again.witness())
-			}
 			if !hit {
-				r.Inconclusive(fmt.Sprintf("case %d: bound fired once under load (%s: %s) but not when re-run alone", i, f.Key, f.What))
+				r.Inconclusive(fmt.Sprintf("%s %d: bound fired once under load (%s: %s) but not in three runs alone", j.engine, i, f.Key, f.What))
 			}
 		}
-		if res.cfg.Kind == "full" && res.full && !sampled[res.cfg.Order] && len(sampled) < 2 {
+		// a bound fired and the process was kept: it is watched further now, alone
+		if h := res.held; h != nil {
+			if confirmed[h.Key] {
+				h.release()
+				r.Count("bound_fired_again_after_confirmation", 1)
+			} else if watched[h.Key] >= r.N(2, 3) {
+				h.release()
+				r.Count("bound_fired_not_watched_alone", 1)
+				r.Inconclusive(fmt.Sprintf("%s %d: bound fired (%s: %s) — not watched further, %d process(es) with this bound were already watched alone", j.engine, i, h.Key, h.What, r.N(2, 3)))
+			} else {
+				watched[h.Key]++
+				r.Logf("%s %d: bound fired (%s); the same process is now watched alone for another %s", j.engine, i, h.Key, 2*boundClose)
+				r.Count("processes_watched_alone", 1)
+				still, detail := h.confirm(2 * boundClose)
+				h.release()
+				if still {
+					confirmed[h.Key] = true
+					r.Violate(j.engine, i, h.Key, h.What+fmt.Sprintf(" [the bound fired under load and the same process, watched alone for another %s, did not get there either: %s]", 2*boundClose, detail), res.witness())
+				} else {
+					r.Inconclusive(fmt.Sprintf("%s %d: bound fired once under load (%s: %s) but %s", j.engine, i, h.Key, h.What, detail))
+				}
+			}
+		}
+		switch {
+		case res.cfg.Engine != "":
+			if res.full && !sampled[res.cfg.Engine] && (res.cfg.Kind != "atonce" || res.counts["shells_ready"] > 0) {
+				sampled[res.cfg.Engine] = true
+				r.Sample(res.cfg.Engine+" engine timeline", map[string]any{"config": res.cfg, "timeline": compact(res.tl.lines())})
+			}
+		case res.cfg.Kind == "full" && res.full && !sampled[res.cfg.Order] && len(sampled) < 2:
 			sampled[res.cfg.Order] = true
 			r.Sample("one-shell timeline", map[string]any{"config": res.cfg, "timeline": compact(res.tl.lines())})
-		} else if res.cfg.Kind == "never" && res.full && !sampled["never"] {
+		case res.cfg.Kind == "never" && res.full && !sampled["never"]:
 			sampled["never"] = true
 			r.Sample("never-completed shell timeline", map[string]any{"config": res.cfg, "timeline": compact(res.tl.lines())})
 		}
 	}
 	r.Extra("max_close_latency_ms", ms(maxLat))
-	full := int64(n - n/10)
-	r.Floor("runs", int64(n))
-	r.Floor("runs_complete", int64(n)*6/10)
-	r.Floor("runs_never_completed_shell", int64(n/10))
-	r.Floor("poller_connects", int64(n)*100)
-	r.Floor("connects_ok_before_ready", int64(n)*20)
-	r.Floor("refused_after_close", full*8)
-	r.Floor("tokens_out_checked", full/2*200)
-	r.Floor("lines_in_checked", full*6/10*200)
-	r.Floor("help_after_gone_scans", full*6/10)
-	r.Floor("exits_observed", full*6/10)
-	r.Floor("tokens_sent_after_refusal", full/2*50)
-	r.Floor("lines_typed_after_refusal", full*6/10*50)
-	// the late speakers
-	r.Floor("late_runs_with_preopened_silent_connections", full*8/10)
-	r.Floor("late_conns_opened", full*3*8/10)
-	r.Floor("late_conns_opened_tls_handshake_done", full)
-	r.Floor("late_conns_opened_tcp_only", full)
-	r.Floor("late_requests_during_shell", full*2*6/10)
-	r.Floor("late_shell_requests_during_shell", full*6/10)
-	r.Floor("lines_typed_after_late_requests", full*6/10*30)
-	r.Floor("late_requests_after_shell", full*6/10)
-	r.Floor("late_shell_requests_after_shell", full*4/10)
-	r.Floor("late_later_shells_ready", full/4)
+	if os.Getenv("C12_ENGINE") == "" || os.Getenv("C12_ENGINE") == "case" {
+		full := int64(n - n/10)
+		r.Floor("runs", int64(n))
+		r.Floor("runs_complete", int64(n)*6/10)
+		r.Floor("runs_never_completed_shell", int64(n/10))
+		r.Floor("poller_connects", int64(n)*100)
+		r.Floor("connects_ok_before_ready", int64(n)*20)
+		r.Floor("refused_after_close", full*8)
+		r.Floor("tokens_out_checked", full/2*200)
+		r.Floor("lines_in_checked", full*6/10*200)
+		r.Floor("help_after_gone_scans", full*6/10)
+		r.Floor("exits_observed", full*6/10)
+		r.Floor("tokens_sent_after_refusal", full/2*50)
+		r.Floor("lines_typed_after_refusal", full*6/10*50)
+		// the late speakers
+		r.Floor("late_runs_with_preopened_silent_connections", full*8/10)
+		r.Floor("late_conns_opened", full*3*8/10)
+		r.Floor("late_conns_opened_tls_handshake_done", full)
+		r.Floor("late_conns_opened_tcp_only", full)
+		r.Floor("late_requests_during_shell", full*2*6/10)
+		r.Floor("late_shell_requests_during_shell", full*6/10)
+		r.Floor("lines_typed_after_late_requests", full*6/10*30)
+		// (since fix 0610514 the program closes what is left when the one shell has gone: a
+		// pre-opened connection can no longer speak afterwards; the attempts are still made)
+		r.Floor("late_after_shell_attempts", full*6/10)
+	}
+	if r.Replaying() {
+		return
+	}
+	if os.Getenv("C12_ENGINE") == "" || os.Getenv("C12_ENGINE") == "upload" {
+		// the upload engine: the shell's output request with method / framing / Expect variants
+		r.Floor("upload_runs", int64(nUp))
+		r.Floor("upload_runs_complete", int64(nUp)*2/3)
+		r.Floor("upload_shell_uploads_with_expect_100_continue", byConstr["upload_expect"]*2/3)
+		r.Floor("upload_expect_100_continue_received", byConstr["upload_expect_wait"]*2/3)
+		r.Floor("upload_lingering_uploads_with_expect_and_content_length_judged_to_the_end", max(1, byConstr["upload_linger_expect_fixed"]*2/3))
+		r.Floor("upload_junk_refused_uploads_with_expect_100_continue", max(1, byConstr["upload_junk_expect"]*2/3))
+		r.Floor("upload_tokens_out_checked", int64(nUp)*2/3*80)
+		r.Floor("upload_lines_in_checked", int64(nUp)*2/3*80)
+		r.Floor("upload_exits_observed", int64(nUp)*2/3)
+		r.Floor("upload_refused_after_close", int64(nUp)*8)
+	}
+	if os.Getenv("C12_ENGINE") == "" || os.Getenv("C12_ENGINE") == "atonce" {
+		// the at-once engine: shells that are over the moment they are complete
+		r.Floor("atonce_runs", int64(nAt))
+		r.Floor("atonce_runs_complete", int64(nAt)*2/3)
+		r.Floor("atonce_attempts", int64(nAt))
+		// five cases in twelve become a shell whatever the program's scheduling; the floors stay below that share
+		r.Floor("atonce_shells_ready", int64(nAt)/3)
+		r.Floor("atonce_shells_ready:i-o/after-a-while", max(1, byConstr["atonce_det"]*2/3))
+		r.Floor("atonce_listener_seen_closed", int64(nAt)/3)
+		r.Floor("atonce_shells_judged_to_the_end", int64(nAt)/3)
+		r.Floor("atonce_exits_observed", int64(nAt)/3)
+		r.Floor("atonce_help_after_gone_scans", int64(nAt)/3)
+		r.Floor("atonce_refused_after_close", int64(nAt)/3*8)
+		for _, f := range atFrames {
+			r.Floor("atonce_shells_ready:frame:"+f, 1)
+		}
+		if _, err := os.Stat("/usr/bin/curl"); err == nil {
+			r.Floor("atonce_real_curl_uploads_of_dev_null", 1)
+		}
+	}
 }
 
 func compact(l []string) []string {
